@@ -459,7 +459,7 @@ pub fn property() -> Property {
         // Seeds beyond the modulus through the same hook.
         prop_family(
             "seed-step",
-            200_000,
+            2_000_000,
             20_000_000,
             |_| seed_strategy().prop_map(|s| Chunk { start: s, stride: 0, count: 1 }),
             |c: &Chunk, rec| {
@@ -470,7 +470,7 @@ pub fn property() -> Property {
                 v
             },
         ),
-        prop_family("api-scripts", 20_000, 1_000_000, |_| script_strategy(), check_script),
+        prop_family("api-scripts", 120_000, 1_500_000, |_| script_strategy(), check_script),
     ];
     Property {
         id: "C18",
